@@ -1758,3 +1758,23 @@ def bool_field_value_used(run, R="MPT"):
     ok = bool(pays) and any(p is None for p in pays)
     run.check(ok, R, R + "|fields|bool-value-used", f.loc(), "a flag field given a value takes that value",
               "AstFields::extract_as_bool answers only constants (%s): the value written for a flag is ignored, so `#bankdef a { ..., fill = false }` switches filling ON" % pays)
+
+
+def mesen_units_scaled(run, R="MPT"):
+    """Mesen offsets are byte offsets into the file: the distance of a label from its bank's start, which is counted in the bank's
+    address units, is multiplied by the unit's width before it is added to the bank's byte offset"""
+    cl = [g for g in run.prog.real_fns() if g.kind == "Closure" and "format_mesen_mlb" in g.id]
+    ok = False
+    for g in cl:
+        for bi, t in g.calls():
+            c = t.get("callee") or ""
+            if re.search(r"<impl usize>::(checked_mul|saturating_mul)$", c) and any(".addr_unit" in _deep(g, a, 5) for a in t["args"]):
+                ok = True
+        for h in run.prog.real_fns():
+            if h.kind == "Closure" and h.id.startswith(g.id + "::{closure"):
+                for bi, t in h.calls():
+                    c = t.get("callee") or ""
+                    if re.search(r"<impl usize>::(checked_mul|saturating_mul)$", c) and any("addr_unit" in _deep(h, a, 5) for a in t["args"]):
+                        ok = True
+    run.check(bool(cl) and ok, R, R + "|mesen|units-scaled", cl[0].loc() if cl else "-", "the label's distance from the bank start is scaled by the bank's address unit",
+              "format_mesen_mlb adds the distance of a label from its bank's start (in address units) to a byte offset without scaling: in a bank with `#bits 16` the labels at words 0, 1, 2 are listed as P:0, P:1, P:2 although they lie at bytes 0, 2, 4")
